@@ -139,7 +139,11 @@ func verifH_C16_G3_packetqueue() {
 func verifH_C16_G7_serversocket() {
 	w := verifServerWorld("/")
 	s := w.verifConnected("/")["/"]
-	id := s.registerAckHandler(func(string) {}, 0)
+	// the ack callback calls back into the socket (emit with another ack, join a room): operations issued from handlers
+	id := s.registerAckHandler(func(string) {
+		s.registerAckHandler(func(string) {}, 0)
+		s.Join("from-callback")
+	}, 0)
 	op := func(k int) {
 		switch k {
 		case 0:
@@ -164,6 +168,7 @@ func verifH_C16_G7_serversocket() {
 	verifGo(func() { op(a) })
 	verifGo(func() { op(b) })
 	verifWaitQuiescent()
+	verifAssert(verifBlocked() == 0, "no goroutine left blocked: serverSocket")
 	verifAssert(verifHeldLocks() == 0, "no mutex left held: serverSocket")
 	verifReach("end")
 }
